@@ -568,6 +568,8 @@ func solveAll(obls []*Obligation, workdir string, quickSec, slowSec int, thoroug
 	// solvers run in parallel.
 	scripts := make([]string, len(obls))
 	pure := make([]string, len(obls))
+	tr := time.Now()
+	defer func() { _ = tr }()
 	for i, o := range obls {
 		if isLit(o.Goal, "true") && !o.ExpectSat {
 			continue
@@ -577,6 +579,9 @@ func solveAll(obls []*Obligation, workdir string, quickSec, slowSec int, thoroug
 			pure[i] = o.PurifiedScript()
 		}
 	}
+	if os.Getenv("GOWP_TIMING") != "" {
+		fmt.Fprintf(os.Stderr, "gowp: rendering took %.1fs\n", time.Since(tr).Seconds())
+	}
 	for i := range obls {
 		i := i
 		wg.Add(1)
@@ -584,7 +589,11 @@ func solveAll(obls []*Obligation, workdir string, quickSec, slowSec int, thoroug
 		go func() {
 			defer wg.Done()
 			defer func() { <-sem }()
+			t1 := time.Now()
 			res[i] = solveScript(obls[i], scripts[i], pure[i], workdir, i, quickSec, slowSec, thorough)
+			if w := time.Since(t1).Seconds(); w > 2 && os.Getenv("GOWP_TIMING") != "" {
+				fmt.Fprintf(os.Stderr, "gowp: slow %s wall %.1fs status %s tried %v\n", obls[i].Name, w, res[i].Status, res[i].Tried)
+			}
 		}()
 	}
 	wg.Wait()
@@ -606,9 +615,8 @@ func solveScript(o *Obligation, script, purified, workdir string, idx, quickSec,
 	type r struct {
 		st, out, name string
 		ms            int64
+		direct        bool
 	}
-	// stage 1: z3-new on the full query, and (if available) on the
-	// purified real-arithmetic abstraction, concurrently.
 	pfile := ""
 	if purified != "" {
 		pfile = filepath.Join(workdir, fmt.Sprintf("o%05d.purified.smt2", idx))
@@ -616,96 +624,68 @@ func solveScript(o *Obligation, script, purified, workdir string, idx, quickSec,
 			pfile = ""
 		}
 	}
-	ctx1, cancel1 := context.WithCancel(context.Background())
-	defer cancel1()
-	ch1 := make(chan r, 2)
-	n1 := 1
-	go func() {
-		s, o2, m := runSolverCtx(ctx1, solvers[0], file, quickSec)
-		ch1 <- r{s, o2, solvers[0].name, m}
-	}()
-	if pfile != "" {
-		n1++
+	// race: every solver on the full query, z3 (both versions) on the
+	// purified real-arithmetic abstraction. The first definitive answer on
+	// the full query, or the first unsat on the abstraction, decides
+	// (quick); thorough waits for everybody and checks agreement.
+	ctx, cancel := context.WithCancel(context.Background())
+	defer cancel()
+	ch := make(chan r, 8)
+	n := 0
+	for _, sp := range solvers {
+		sp := sp
+		n++
 		go func() {
-			s, o2, m := runSolverCtx(ctx1, solvers[0], pfile, quickSec)
-			if s != "unsat" {
-				s = "unknown" // a model of the abstraction means nothing
-			}
-			ch1 <- r{s, o2, solvers[0].name + "/purified-nra", m}
+			s, o2, m := runSolverCtx(ctx, sp, file, quickSec)
+			ch <- r{s, o2, sp.name, m, true}
 		}()
+	}
+	if pfile != "" {
+		for _, sp := range solvers[:2] {
+			sp := sp
+			n++
+			go func() {
+				s, o2, m := runSolverCtx(ctx, sp, pfile, quickSec)
+				if s != "unsat" {
+					s = "unknown" // a model of the abstraction means nothing
+				}
+				ch <- r{s, o2, sp.name + "/purified-nra", m, false}
+			}()
+		}
 	}
 	var res SolveResult
-	var direct r
-	for i := 0; i < n1; i++ {
-		got := <-ch1
+	res.Status = "unknown"
+	statuses := map[string]bool{}
+	for i := 0; i < n; i++ {
+		got := <-ch
 		res.Tried = append(res.Tried, got.name+":"+got.st)
-		if got.name == solvers[0].name {
-			direct = got
+		if got.direct {
+			statuses[got.st] = true
 		}
-		if got.st == "unsat" && !thorough {
-			return SolveResult{Status: "unsat", Solver: got.name, Ms: got.ms, Output: got.out, Tried: res.Tried}
-		}
-		if got.st == "unsat" && res.Status != "unsat" {
+		switch {
+		case got.st == "unsat" && res.Status != "unsat":
 			res.Status, res.Solver, res.Ms, res.Output = "unsat", got.name, got.ms, got.out
-		}
-	}
-	if res.Status != "unsat" {
-		res.Status, res.Solver, res.Ms, res.Output = direct.st, direct.name, direct.ms, direct.out
-	}
-	// stage 2: the other solvers
-	ch := make(chan r, 3)
-	n2 := 0
-	for _, sp := range solvers[1:] {
-		sp := sp
-		n2++
-		go func() {
-			s, o2, m := runSolver(sp, file, slowSec)
-			ch <- r{s, o2, sp.name, m}
-		}()
-	}
-	if pfile != "" && res.Status != "unsat" {
-		n2++
-		go func() {
-			s, o2, m := runSolver(solvers[1], pfile, slowSec)
-			if s != "unsat" {
-				s = "unknown"
+			if !thorough {
+				return res
 			}
-			ch <- r{s, o2, solvers[1].name + "/purified-nra", m}
-		}()
-	}
-	var others []r
-	for i := 0; i < n2; i++ {
-		others = append(others, <-ch)
-	}
-	for _, ot := range others {
-		res.Tried = append(res.Tried, ot.name+":"+ot.st)
-	}
-	if thorough {
-		statuses := map[string]bool{direct.st: true}
-		for _, ot := range others {
-			if !strings.Contains(ot.name, "purified") {
-				statuses[ot.st] = true
+		case got.st == "sat" && got.direct && res.Status != "unsat" && res.Status != "sat":
+			res.Status, res.Solver, res.Ms, res.Output = "sat", got.name, got.ms, got.out
+			if !thorough {
+				return res
+			}
+		case res.Status == "unknown" && got.direct && (got.st == "timeout" || got.st == "error"):
+			res.Solver, res.Ms, res.Output = got.name, got.ms, got.out
+			if got.st == "timeout" {
+				res.Status = "timeout"
 			}
 		}
-		if statuses["sat"] && statuses["unsat"] {
-			res.Status = "error"
-			res.Output = "solver disagreement: " + strings.Join(res.Tried, " ")
-			return res
-		}
 	}
-	if res.Status == "unsat" {
-		return res
+	if thorough && statuses["sat"] && statuses["unsat"] {
+		res.Status = "error"
+		res.Output = "solver disagreement: " + strings.Join(res.Tried, " ")
 	}
-	for _, ot := range others {
-		if ot.st == "unsat" {
-			res.Status, res.Solver, res.Ms, res.Output = "unsat", ot.name, ot.ms, ot.out
-			return res
-		}
-	}
-	for _, ot := range others {
-		if ot.st == "sat" && res.Status != "sat" {
-			res.Status, res.Solver, res.Ms, res.Output = "sat", ot.name, ot.ms, ot.out
-		}
+	if res.Status == "timeout" && statuses["unknown"] {
+		res.Status = "unknown"
 	}
 	return res
 }
